@@ -100,7 +100,7 @@ type swSink struct{ cur io.Writer }
 func (s *swSink) Write(p []byte) (int, error) { return s.cur.Write(p) }
 
 var fieldWords = []string{"track", "browser", "tracking_ctg7", "browser_position", "chr", "gff-version", "date", "Type", "DNA", "end-DNA",
-	"sequence-region", "NaN", "Inf", "nil", "null", "true", "0", "-1", "1e3", "0x1F", "+", "-", ".", "..", "\\t", "\\n", "%s", "%d%%"}
+	"sequence-region", "NaN", "Inf", "nil", "null", "true", "0", "-1", "1e3", "0x1F", "+", "-", ".", "..", "\\t", "\\n", "%s", "%d%%", "%41", "%2F", "a%20b", "%zz", "&amp;", "\\x41"}
 
 const fieldChars = "abcXYZ019_.:|>@+#;=-/ *~!\"'"
 
